@@ -250,29 +250,15 @@ func ZZ_C19_abstract() {
 	zzAssert(planCost(&s1, depthDoc(4)) == planCost(&s6, depthDoc(4)), "planning cost depends on the number of possible types of an abstract field")
 	c2, c4, c6 := planCost(&s6, depthDoc(2)), planCost(&s6, depthDoc(4)), planCost(&s6, depthDoc(6))
 	zzAssert(c6-c4 == c4-c2, "planning cost is not linear in the nesting depth through abstract fields")
-	// executing plans only the runtime type actually met
-	doc := zzParse(depthDoc(3))
-	plan, _ := PlanQuery(&s6, doc, "")
-	r := ExecutePlan(plan, ExecuteParams{Schema: s6})
-	zzAssert(len(r.Errors) == 0, "execution failed")
-	fp := plan.root.fields[0]
-	for depth := 0; depth < 3; depth++ {
-		zzAssert(len(fp.abstractAlternatives) == 1, "execution planned runtime types that were never met")
-		var next *fieldPlan
-		for _, sub := range fp.abstractAlternatives {
-			if sub == nil {
-				continue
-			}
-			for _, f := range sub.fields {
-				if f.fieldName == "n" {
-					next = f
-				}
-			}
-		}
-		if next == nil {
-			break
-		}
-		fp = next
+	// executing plans only the runtime type actually met: the work done in the
+	// planner during execution does not depend on how many possible types exist
+	execCost := func(s *Schema) int {
+		plan, _ := PlanQuery(s, zzParse(depthDoc(3)), "")
+		return zzCost(func() {
+			r := ExecutePlan(plan, ExecuteParams{Schema: *s})
+			zzAssert(len(r.Errors) == 0, "execution failed")
+		})
 	}
+	zzAssert(execCost(&s1) == execCost(&s6), "execution planned runtime types that were never met")
 	zzCover("end")
 }
